@@ -66,6 +66,30 @@ THEOREMS = [
 SEL = {"node_keys": ["element", "charge"], "edge_keys": ["order"], "hcount": False}
 INVARIANT_KINDS = ("none", "elems", "elems_unsorted", "hash", "size")
 ELEMENTS = ["C", "N", "O", "S", "H", "Br", "Cl", "P"]
+# what generic_node_match(["element","charge"],["*",0]) / generic_edge_match("order",1) read for an ABSENT key
+DEFAULTS_NODE = (("element", {"s": "*"}), ("charge", {"n": 0}))
+DEFAULTS_EDGE = (("order", {"n": 2}),)
+RC_NODE_KEYS = ("element", "charge", "atom_map")
+RC_EDGE_KEYS = ("order", "standard_order")
+# reactions in which no bond changes: get_rc(rsmi_to_its(.)) is an EMPTY graph
+NO_CHANGE_RSMI = [
+    "[CH3:1][OH:2]>>[CH3:1][OH:2]",
+    "[OH2:1]>>[OH2:1]",
+    "[CH3:1][CH2:2][Cl:3]>>[CH3:1][CH2:2][Cl:3]",
+    "[NH3:1].[H+:2]>>[NH3:1].[H+:2]",
+    "[CH2:1]=[CH2:2]>>[CH2:1]=[CH2:2]",
+    "[CH3:1][C:2](=[O:3])[OH:4]>>[CH3:1][C:2](=[O:3])[OH:4]",
+]
+# reactions in which only charges / hydrogen counts change: get_rc(.., disconnected=True) is a
+# single-node or an edgeless graph
+CHARGE_ONLY_RSMI = [
+    "[CH3:1][O-:2]>>[CH3:1][OH:2]",
+    "[CH3:1][CH2:2][O-:3]>>[CH3:1][CH2:2][OH:3]",
+    "[CH3:1][NH2:2]>>[CH3:1][NH3+:2]",
+    "[CH3:1][S-:2]>>[CH3:1][SH:2]",
+    "[O-:1][CH2:2][CH2:3][NH3+:4]>>[OH:1][CH2:2][CH2:3][NH2:4]",
+    "[NH3+:1][CH2:2][CH2:3][CH2:4][O-:5]>>[NH2:1][CH2:2][CH2:3][CH2:4][OH:5]",
+]
 
 
 # ---------------------------------------------------------------- population
@@ -95,9 +119,165 @@ def relabel(gj, rnd):
     return {"nodes": nodes, "edges": edges}
 
 
+def plain(gj):
+    """The graph encoding alone (an entry made by the real pipeline also carries its reaction SMILES)."""
+    return {"nodes": gj["nodes"], "edges": gj["edges"]}
+
+
+def norm_json(gj):
+    """`SynKit.Cluster.norm` (SynKitProofs/ClusterIso.lean) on the JSON encoding: the default a matcher reads
+    for an ABSENT key is written out ("*", 0 on nodes; 1 on edges); a key that is present is left alone."""
+    def wd(a, defaults):
+        a = dict(a)
+        for k, v in defaults:
+            if k not in a:
+                a[k] = v
+        return a
+    return {"nodes": [[n, wd(a, DEFAULTS_NODE)] for n, a in gj["nodes"]],
+            "edges": [[u, v, wd(a, DEFAULTS_EDGE)] for u, v, a in gj["edges"]]}
+
+
+def build_rc(rsmi, kw):
+    """A reaction centre made by the real pipeline (only to obtain realistic graph OBJECTS; what it returns
+    is encoded and judged by the Lean engine like every other graph)."""
+    from synkit.IO.chem_converter import rsmi_to_its
+    from synkit.Graph.ITS.its_decompose import get_rc
+    return get_rc(rsmi_to_its(rsmi), **kw)
+
+
+def rc_entry(rsmi, kw):
+    try:
+        enc = graphio.graph(build_rc(rsmi, kw), RC_NODE_KEYS, RC_EDGE_KEYS)
+    except Exception:  # the pipeline is not this property's concern: fall back to a plain empty graph
+        return {"nodes": [], "edges": []}
+    return {**enc, "rsmi": rsmi, "rc_kw": dict(kw)}
+
+
+def entry_graph(entry):
+    """-> (the networkx object given to the implementation, the encoding of exactly that object)"""
+    if "rsmi" in entry:
+        try:
+            G = build_rc(entry["rsmi"], entry.get("rc_kw") or {})
+            enc = graphio.graph(G, RC_NODE_KEYS, RC_EDGE_KEYS)
+            return G, {**enc, "rsmi": entry["rsmi"], "rc_kw": entry.get("rc_kw") or {}}
+        except Exception:
+            pass
+    return graphio.to_nx(entry), entry
+
+
+def _node(i, el, q=0):
+    return [i, {"element": {"s": el}, "charge": {"n": 2 * q}}]
+
+
+def degenerate(rnd):
+    """Rare but legal reaction centres: empty, single-node, edgeless, one bond. -> (graph, kind)
+    Small alphabets, so that isomorphic pairs between independent draws are common."""
+    k = rnd.choice(["empty", "empty", "empty_rc", "empty_rc", "single", "single", "edgeless", "edgeless",
+                    "rc_charge_only", "one_bond"])
+    el = lambda: rnd.choice(["C", "C", "O", "N"])
+    q = lambda: rnd.choice([0, 0, 0, -1, 1])
+    if k == "empty":
+        return {"nodes": [], "edges": []}, k
+    if k == "empty_rc":
+        return rc_entry(rnd.choice(NO_CHANGE_RSMI), {"disconnected": True} if rnd.random() < 0.3 else {}), k
+    if k == "rc_charge_only":
+        return rc_entry(rnd.choice(CHARGE_ONLY_RSMI), {"disconnected": True}), k
+    if k == "single":
+        return {"nodes": [_node(rnd.randrange(60), el(), q())], "edges": []}, k
+    if k == "edgeless":
+        ids = rnd.sample(range(60), rnd.randint(2, 4))
+        return {"nodes": [_node(i, el(), q()) for i in ids], "edges": []}, k
+    u, v = rnd.sample(range(60), 2)
+    a, b = rnd.choice([(1, 2), (2, 1), (1, 0), (0, 1)])
+    return {"nodes": [_node(u, el(), q()), _node(v, el(), q())],
+            "edges": [[u, v, {"order": {"t": [{"n": 2 * a}, {"n": 2 * b}]}}]]}, k
+
+
+def sym_ring(rnd):
+    """A symmetric skeleton (ring of 4 or 6 equal atoms, uniform or alternating bond change) on which only two
+    marks (a charge or a hetero atom) break the symmetry: their distance / their position relative to the
+    alternating bonds decides the class."""
+    n = rnd.choice([4, 4, 6])
+    alt = rnd.random() < 0.5
+    off = rnd.randrange(60 - n)
+    nodes = [_node(off + i, "C") for i in range(n)]
+    for pos in rnd.sample(range(n), 2):
+        if rnd.random() < 0.5:
+            nodes[pos][1]["charge"] = {"n": -2}
+        else:
+            nodes[pos][1]["element"] = {"s": "N"}
+    edges = []
+    for i in range(n):
+        a, b = ((1, 2) if i % 2 == 0 else (2, 1)) if alt else (1, 2)
+        edges.append([off + i, off + (i + 1) % n, {"order": {"t": [{"n": 2 * a}, {"n": 2 * b}]}}])
+    return {"nodes": nodes, "edges": edges}
+
+
+def derived(gj, rnd):
+    """A graph derived from one that is (usually) in the same list: sub-graph on one node less, on one bond
+    less, one atom isolated, a spectator atom added, one matched attribute dropped. -> (graph, kind)"""
+    g = copy.deepcopy(plain(gj))
+    kinds = ["add_isolated"]
+    if g["nodes"]:
+        kinds += ["drop_node", "drop_attr"]
+    if g["edges"]:
+        kinds += ["drop_edge", "isolate", "drop_attr"]
+    k = rnd.choice(kinds)
+    if k == "add_isolated":
+        used = {n for n, _ in g["nodes"]}
+        g["nodes"].append(_node(rnd.choice([i for i in range(61) if i not in used]), rnd.choice(["C", "O", "H"]),
+                                rnd.choice([0, 0, -1])))
+    elif k in ("drop_node", "isolate"):
+        x = rnd.choice(g["nodes"])[0]
+        g["edges"] = [e for e in g["edges"] if x not in (e[0], e[1])]
+        if k == "drop_node":
+            g["nodes"] = [n for n in g["nodes"] if n[0] != x]
+    elif k == "drop_edge":
+        g["edges"].pop(rnd.randrange(len(g["edges"])))
+    else:  # one of the compared keys removed: the matcher reads its default instead
+        if g["edges"] and rnd.random() < 0.4:
+            rnd.choice(g["edges"])[2].pop("order", None)
+        else:
+            rnd.choice(g["nodes"])[1].pop(rnd.choice(["charge", "charge", "element"]), None)
+    return g, k
+
+
+def iso_variant(gj, rnd):
+    """A copy that the property puts in the SAME class although its dicts differ: spectator attributes changed
+    or added (also a node attribute called "order" and edge attributes called "element"/"charge"), a charge
+    that equals the default 0 left out."""
+    g = copy.deepcopy(plain(gj))
+    for n in g["nodes"]:
+        a = n[1]
+        if rnd.random() < 0.5:
+            a["atom_map"] = {"n": 2 * rnd.randrange(1, 90)}
+        if rnd.random() < 0.4:
+            a["order"] = {"n": rnd.choice([2, 3, 4])}
+        if rnd.random() < 0.3:
+            a["hcount"] = {"n": 2 * rnd.randrange(4)}
+        if a.get("charge") == {"n": 0} and rnd.random() < 0.4:
+            del a["charge"]
+    for e in g["edges"]:
+        a = e[2]
+        if rnd.random() < 0.4:
+            a["element"] = {"s": rnd.choice(ELEMENTS)}
+        if rnd.random() < 0.4:
+            a["charge"] = {"n": rnd.choice([-2, 0, 2])}
+        if rnd.random() < 0.4:
+            a["standard_order"] = {"n": rnd.choice([-2, 0, 2])}
+    return relabel(g, rnd)
+
+
 def near_miss(gj, rnd):
     """One bond order, one charge or one element changed. -> (graph, kind)"""
-    g = copy.deepcopy(gj)
+    g = copy.deepcopy(plain(gj))
+    if not g["nodes"]:  # the nearest miss of an empty centre is a single atom
+        return {"nodes": [_node(rnd.randrange(60), rnd.choice(["C", "O"]))], "edges": []}, "grow"
+    for n in g["nodes"]:
+        for key, dflt in DEFAULTS_NODE:
+            n[1].setdefault(key, dict(dflt))
+    for e in g["edges"]:
+        e[2].setdefault("order", {"n": 2})
     kinds = ["charge", "element"] + (["order"] if g["edges"] else [])
     k = rnd.choice(kinds)
     if k == "order":
@@ -130,18 +310,19 @@ def _num(x):
 
 
 def attr_value(kind, G):
-    """Iso-invariant attribute values computed by the harness (never by synkit code)."""
+    """Iso-invariant attribute values computed by the harness (never by synkit code); an absent key is read
+    with the matcher's default, as the isomorphism does."""
     if kind == "none":
         return None
     if kind == "elems":
-        return sorted(str(d.get("element")) for _, d in G.nodes(data=True))
+        return sorted(str(d.get("element", "*")) for _, d in G.nodes(data=True))
     if kind == "elems_unsorted":  # GraphCluster sorts list attributes itself
-        return [str(d.get("element")) for _, d in G.nodes(data=True)]
+        return [str(d.get("element", "*")) for _, d in G.nodes(data=True)]
     if kind == "size":
         return f"n{G.number_of_nodes()}e{G.number_of_edges()}"
     if kind == "hash":
         sig = sorted(
-            (str(d.get("element")), _num(d.get("charge")), sorted(repr(_num(G.edges[n, m].get("order"))) for m in G[n]))
+            (str(d.get("element", "*")), _num(d.get("charge", 0)), sorted(repr(_num(G.edges[n, m].get("order", 1))) for m in G[n]))
             for n, d in G.nodes(data=True)
         )
         return hashlib.md5(repr(sig).encode()).hexdigest()[:12]
@@ -205,29 +386,52 @@ def _exc(f):
         return {"error": "ValueError"}
 
 
-def impl_iter(graphs, values):
-    from synkit.Graph.Matcher.graph_cluster import GraphCluster
+_SHARED = {}
+OPTS = {  # the same selection (element, charge | order), spelled differently
+    "default": {},
+    "perm": {"node_label_names": ["charge", "element"], "node_label_default": [0, "*"]},
+    "explicit": {"node_label_names": ["element", "charge"], "node_label_default": ["*", 0], "edge_attribute": "order",
+                 "backend": "nx"},
+}
 
-    gc = GraphCluster()
+
+def inst(kind, case):
+    """GraphCluster / BatchCluster instance of a case: a fresh one, or (case["shared"]) ONE instance per option
+    set that serves every such case of the run, so that state kept between calls would show."""
+    from synkit.Graph.Matcher.graph_cluster import GraphCluster
+    from synkit.Graph.Matcher.batch_cluster import BatchCluster
+
+    case = case or {}
+    opts = case.get("opts") or "default"
+    mk = lambda: (GraphCluster if kind == "gc" else BatchCluster)(**copy.deepcopy(OPTS[opts]))
+    if not case.get("shared"):
+        return mk()
+    if (kind, opts) not in _SHARED:
+        _SHARED[(kind, opts)] = mk()
+    return _SHARED[(kind, opts)]
+
+
+def impl_iter(graphs, values, case=None):
+    gc = inst("gc", case)
     clusters, r2c = gc.iterative_cluster(list(graphs), None if values is None else list(values), gc.nodeMatch, gc.edgeMatch)
     return [sorted(c) for c in clusters], {int(k): v for k, v in r2c.items()}
 
 
-def mk_data(graphs, pids, values):
+def mk_data(graphs, pids, values, stale=False):
     out = []
     for g, p in zip(graphs, pids):
         d = {"gml": g, "pid": p}
+        if stale:  # a left-over classification from an earlier run must not matter
+            d["class"] = 700 + p
         if values is not None:
             d["att"] = values[p]
         out.append(d)
     return out
 
 
-def impl_gc_fit(data, has_attr):
-    from synkit.Graph.Matcher.graph_cluster import GraphCluster
-
+def impl_gc_fit(data, has_attr, case=None):
     def f():
-        res = GraphCluster().fit(data, rule_key="gml", attribute_key="att" if has_attr else None)
+        res = inst("gc", case).fit(data, rule_key="gml", attribute_key="att" if has_attr else None)
         return {"classes": [e.get("class") for e in res]}
     return _exc(f)
 
@@ -242,34 +446,39 @@ def mk_templates(pool_graphs, templates, values):
     return out
 
 
-def impl_bc_cluster(data, templates, has_attr, one_by_one=False):
-    from synkit.Graph.Matcher.batch_cluster import BatchCluster
-
-    bc = BatchCluster()
+def impl_bc_cluster(data, templates, has_attr, one_by_one=False, case=None):
+    bc = inst("bc", case)
     key = "att" if has_attr else None
     if one_by_one:
         ts = templates
+        kw = {}
+        if (case or {}).get("explicit_match"):  # the matchers handed over instead of taken from the instance
+            g = inst("gc", case)
+            kw = {"nodeMatch": g.nodeMatch, "edgeMatch": g.edgeMatch}
         for e in data:
-            _, ts = bc.lib_check(e, ts, rule_key="gml", attribute_key=key)
+            _, ts = bc.lib_check(e, ts, rule_key="gml", attribute_key=key, **kw)
         res = data
     else:
         res, ts = bc.cluster(data, templates, rule_key="gml", attribute_key=key)
     return {"classes": [e.get("class") for e in res], "templates": [[t["pid"], t["class"]] for t in ts]}
 
 
-def impl_bc_fit(data, templates, has_attr, batch_size):
-    from synkit.Graph.Matcher.batch_cluster import BatchCluster
-
+def impl_bc_fit(data, templates, has_attr, batch_size, case=None):
     def f():
-        res, ts = BatchCluster().fit(data, templates, rule_key="gml", attribute_key="att" if has_attr else None,
+        res, ts = inst("bc", case).fit(data, templates, rule_key="gml", attribute_key="att" if has_attr else None,
                                      batch_size=batch_size)
         return {"classes": [e.get("class") for e in res], "templates": [[t["pid"], t["class"]] for t in ts]}
     return _exc(f)
 
 
 # ---------------------------------------------------------------- evaluation of cases
+def lean_pool(pool):
+    """What the Lean engine is asked about: the encodings with the matchers' defaults written out."""
+    return [norm_json(g) for g in pool]
+
+
 def matrix_request(case):
-    return {"cmd": "cluster.isomatrix", "graphs": case["pool"], **SEL}
+    return {"cmd": "cluster.isomatrix", "graphs": lean_pool(case["pool"]), **SEL}
 
 
 def keyjson(values, sort_lists):
@@ -302,7 +511,9 @@ def plan(case, iso):
 
 
 def prepare(case):
-    graphs = [graphio.to_nx(g) for g in case["pool"]]
+    built = [entry_graph(g) for g in case["pool"]]
+    graphs = [G for G, _ in built]
+    case["pool"] = [e for _, e in built]
     case["_graphs"] = graphs
     case["_values"] = case_values(case, graphs)
     return case
@@ -341,6 +552,7 @@ def judge(ctx, case, iso, replies, sb):
     glist = [graphs[p] for p in items]
     has_attr = values is not None
     invariant = case["attr"] in INVARIANT_KINDS
+    stale = bool(case.get("stale_class"))
     rep = dict(zip([t for t, _ in plan(case, iso)], replies))
 
     def add(what, spec_violated, detail):
@@ -370,15 +582,15 @@ def judge(ctx, case, iso, replies, sb):
     m = rep["iter"]
     impl_cls = []
     if n == 0:
-        r = _exc(lambda: impl_iter(glist, None))
+        r = _exc(lambda: impl_iter(glist, None, case))
         if not (isinstance(r, dict) and r == m):
             add("GraphCluster.iterative_cluster on an empty list: outcome differs from the model", None, {"impl": str(r), "model": m})
-        r = impl_gc_fit([], has_attr)
+        r = impl_gc_fit([], has_attr, case)
         if r != m:
             add("GraphCluster.fit on an empty list: outcome differs from the model", None, {"impl": r, "model": m})
     else:
         vals_list = None if not has_attr else [values[p] for p in items]
-        clusters, r2c = impl_iter(glist, vals_list)
+        clusters, r2c = impl_iter(glist, vals_list, case)
         impl_cls = [r2c.get(i) for i in range(n)]
         # partition clause on the implementation's own output
         flat = sorted(x for c in clusters for x in c)
@@ -397,14 +609,20 @@ def judge(ctx, case, iso, replies, sb):
             add("iterative_cluster: cluster sets differ from the proven model", None, {"impl": sorted(clusters), "model": m["clusters"]})
         if impl_cls == m["classes"]:
             ctx.count("numbering_equal_to_model")
-        r = impl_gc_fit(mk_data(glist, items, values), has_attr)
+        data0 = mk_data(glist, items, values, stale)
+        r = impl_gc_fit(data0, has_attr, case)
         if "error" in r or None in r["classes"] or partition(r["classes"]) != model_part:
             differs("GraphCluster.fit: classes differ from the proven model (as a partition)", r.get("classes"), items, None,
                     {"impl": r, "model": m["classes"]})
+        if case.get("repeat"):  # the same query again: same instance, the dicts it has already classified
+            r = impl_gc_fit(data0, has_attr, case)
+            if "error" in r or None in r["classes"] or partition(r["classes"]) != model_part:
+                differs("GraphCluster.fit asked the same question a second time: classes differ from the proven model",
+                        r.get("classes"), items, None, {"impl": r, "model": m["classes"]})
         # order independence on the implementation itself
         perm = case["perm"]
         sh_items = [items[p] for p in perm]
-        r2 = impl_gc_fit(mk_data([graphs[p] for p in sh_items], sh_items, values), has_attr)
+        r2 = impl_gc_fit(mk_data([graphs[p] for p in sh_items], sh_items, values, stale), has_attr, case)
         if invariant and ("error" in r2 or partition(invert(perm, r2["classes"])) != partition(impl_cls)):
             add("GraphCluster.fit: partition depends on the order of the list", True,
                 {"order": perm, "original": partition(impl_cls),
@@ -420,8 +638,14 @@ def judge(ctx, case, iso, replies, sb):
         arr_graphs = [graphs[p] for p in arr_items]
         mm = rep["run_empty"]
         for one in (False, True):
-            r = impl_bc_cluster(mk_data(arr_graphs, arr_items, values), [], has_attr, one_by_one=one)
+            data0 = mk_data(arr_graphs, arr_items, values, stale)
+            r = impl_bc_cluster(data0, [], has_attr, one_by_one=one, case=case)
             name = "BatchCluster.lib_check (item by item)" if one else "BatchCluster.cluster"
+            if case.get("repeat"):  # the same arrival stream again from empty templates, dicts already classified
+                rr = impl_bc_cluster(data0, [], has_attr, one_by_one=one, case=case)
+                if rr != r:
+                    differs(f"{name} from empty templates, asked a second time: outcome differs from the first", rr["classes"],
+                            arr_items, None, {"arrival": arrival, "first": r, "second": rr})
             spec_gate(r["classes"], arr_items, None, f"{name} from empty templates: classes do not follow the isomorphism verdicts",
                       {"arrival": arrival})
             if None in r["classes"] or canon_labels(r["classes"], set()) != canon_labels(mm["classes"], set()):
@@ -438,7 +662,8 @@ def judge(ctx, case, iso, replies, sb):
             tcls = {c for _, c in T}
             mm = rep["run_tmpl"]
             for one in (False, True):
-                r = impl_bc_cluster(mk_data(arr_graphs, arr_items, values), mk_templates(graphs, T, values), has_attr, one_by_one=one)
+                r = impl_bc_cluster(mk_data(arr_graphs, arr_items, values, stale), mk_templates(graphs, T, values), has_attr,
+                                    one_by_one=one, case=case)
                 name = "BatchCluster.lib_check (item by item)" if one else "BatchCluster.cluster"
                 spec_gate(r["classes"], arr_items, T,
                           f"{name} with templates: an item is not in the class of its isomorphic representative / not in a fresh "
@@ -459,7 +684,7 @@ def judge(ctx, case, iso, replies, sb):
             impl_t = None if tm is None else mk_templates(graphs, tm, values)
             if tm is None and case.get("empty_list_templates"):
                 impl_t = []
-            r = impl_bc_fit(mk_data(glist, items, values), impl_t, has_attr, bs)
+            r = impl_bc_fit(mk_data(glist, items, values, stale), impl_t, has_attr, bs, case)
             if "error" in r or "error" in mm:
                 if r != mm:
                     add(f"BatchCluster.fit(batch_size={bs}): outcome differs from the model", None, {"impl": r, "model": mm})
@@ -520,11 +745,11 @@ def evaluate(ctx, cases, stream, shrink=True):
     keys = {}
     for c in cases:  # identical pools share one matrix request
         if "_iso" not in c:
-            keys.setdefault(json.dumps(c["pool"], sort_keys=True), None)
+            keys.setdefault(json.dumps(lean_pool(c["pool"]), sort_keys=True), None)
     klist = list(keys)
     mats = lean.ok([{"cmd": "cluster.isomatrix", "graphs": json.loads(k), **SEL} for k in klist], shards=8)
     keys = dict(zip(klist, mats))
-    isos = [c["_iso"] if "_iso" in c else keys[json.dumps(c["pool"], sort_keys=True)] for c in cases]
+    isos = [c["_iso"] if "_iso" in c else keys[json.dumps(lean_pool(c["pool"]), sort_keys=True)] for c in cases]
     plans = [plan(c, iso) for c, iso in zip(cases, isos)]
     replies = lean.ok([r for p in plans for _, r in p], shards=8)
     pos = 0
@@ -620,28 +845,63 @@ class _Quiet:
 
 
 # ---------------------------------------------------------------- generators
-def make_case(rnd, corpus, size, attr, with_templates, gc_only=False):
+def make_case(rnd, corpus, size, attr, with_templates, gc_only=False, mixed=False, kinds=None):
+    """`mixed`: the rare-but-legal population -- fresh draws are also empty / single-atom / edgeless centres (plain
+    objects and centres made by get_rc from reactions without bond change), symmetric rings with two marks; copies
+    also differ in spectator attributes or leave a default-valued key out; near misses also are sub-graphs."""
     pool, items = [], []
     n_near = n_rel = n_dup = 0
+    kinds = kinds if kinds is not None else {}
+
+    def seen(k):
+        kinds[k] = kinds.get(k, 0) + 1
+
+    def fresh():
+        c = rnd.random() if mixed else 1.0
+        if mixed and c < 0.45:
+            g, k = degenerate(rnd)
+            seen("fresh:" + k)
+            return g
+        if mixed and c < 0.60:
+            seen("fresh:sym_ring")
+            return sym_ring(rnd)
+        g = rnd.choice(corpus)
+        return relabel(g, rnd) if rnd.random() < 0.5 else copy.deepcopy(g)
+
     while len(items) < size:
         c = rnd.random()
         if pool and c < 0.22:  # duplicate: the same pool entry again
             items.append(rnd.choice(items))
             n_dup += 1
         elif pool and c < 0.45:  # relabelled copy of an entry already used
-            pool.append(relabel(pool[rnd.choice(items)], rnd))
+            src = pool[rnd.choice(items)]
+            if mixed and rnd.random() < 0.4:
+                seen("copy:iso_variant")
+                pool.append(iso_variant(src, rnd))
+            else:
+                pool.append(relabel(src, rnd))
             items.append(len(pool) - 1)
             n_rel += 1
         elif pool and c < 0.65:  # near miss of an entry already used
-            g, _k = near_miss(pool[rnd.choice(items)], rnd)
+            src = pool[rnd.choice(items)]
+            if mixed and rnd.random() < 0.5:
+                g, _k = derived(src, rnd)
+                seen("derived:" + _k)
+            else:
+                g, _k = near_miss(src, rnd)
             pool.append(relabel(g, rnd) if rnd.random() < 0.5 else g)
             items.append(len(pool) - 1)
             n_near += 1
         else:
-            g = rnd.choice(corpus)
-            pool.append(relabel(g, rnd) if rnd.random() < 0.5 else copy.deepcopy(g))
+            pool.append(fresh())
             items.append(len(pool) - 1)
     case = {"pool": pool, "items": items, "attr": attr, "gc_only": gc_only}
+    if mixed:  # who is asked, and how (the model's answer does not depend on any of it)
+        case["opts"] = rnd.choice(["default", "default", "perm", "explicit"])
+        case["shared"] = rnd.random() < 0.6
+        case["stale_class"] = rnd.random() < 0.4
+        case["repeat"] = rnd.random() < 0.4
+        case["explicit_match"] = case["opts"] == "default" and rnd.random() < 0.4
     if attr == "noninv":
         # every list entry is its own pool entry, so the attribute is per entry
         pool2, items2 = [], []
@@ -668,7 +928,7 @@ def make_case(rnd, corpus, size, attr, with_templates, gc_only=False):
             pool.append(relabel(pool[p], rnd))
             cand.append(len(pool) - 1)
         for _ in range(rnd.randint(0, 2)):
-            pool.append(relabel(rnd.choice(corpus), rnd))
+            pool.append(relabel(fresh() if mixed else rnd.choice(corpus), rnd))
             cand.append(len(pool) - 1)
         rnd.shuffle(cand)
         numbers = rnd.sample([-3, 0, 1, 2, 4, 5, 7, 9, 12, 20, 41], len(cand))
@@ -723,6 +983,33 @@ def tiny_cases(maxlen):
     return out
 
 
+def tiny_degenerate_alphabet():
+    E = {"nodes": [], "edges": []}
+    E_rc = rc_entry(NO_CHANGE_RSMI[0], {})                                # empty, made by get_rc
+    S = {"nodes": [_node(1, "C")], "edges": []}
+    S2 = {"nodes": [[7, {"element": {"s": "C"}}]], "edges": []}           # isomorphic to S (charge absent = 0)
+    Sq = {"nodes": [_node(1, "C", -1)], "edges": []}                      # near miss: charge
+    So = {"nodes": [_node(3, "O")], "edges": []}                          # near miss: element
+    L = {"nodes": [_node(1, "C"), _node(2, "C")], "edges": []}            # edgeless, two atoms
+    return [E, E_rc, S, S2, Sq, So, L]
+
+
+def tiny_degenerate_cases(maxlen):
+    """ALL lists up to `maxlen` over empty / single-atom / edgeless centres."""
+    alpha = tiny_degenerate_alphabet()
+    out = []
+    k = 0
+    for L in range(1, maxlen + 1):
+        for seq in itertools.product(range(len(alpha)), repeat=L):
+            k += 1
+            out.append({"pool": alpha, "items": list(seq), "attr": ["none", "elems", "hash", "size"][k % 4], "gc_only": False,
+                        "perm": list(reversed(range(L))), "arrival": list(range(L))[1:] + [0],
+                        "templates": [[3, 5]] if k % 5 == 0 else ([[0, 2], [6, -3]] if k % 5 == 1 else []),
+                        "batch_sizes": [2] if k % 2 else [None, 1], "empty_list_templates": bool(k % 2),
+                        "shared": k % 3 == 0, "opts": ["default", "perm"][(k // 3) % 2]})
+    return out
+
+
 def load_regress():
     d = ROOT / "regress" / "C13"
     out = []
@@ -744,6 +1031,106 @@ def malformed_cases(corpus):
     ]
 
 
+# ---------------------------------------------------------------- the predicate, asked directly
+def make_pair(rnd, corpus, kinds):
+    c = rnd.random()
+    if c < 0.45:
+        a, k = degenerate(rnd)
+    elif c < 0.6:
+        a, k = sym_ring(rnd), "sym_ring"
+    else:
+        a, k = copy.deepcopy(rnd.choice(corpus)), "corpus"
+    how = rnd.choice(["same", "relabel", "iso_variant", "near", "derived", "other", "other"])
+    if how == "same":
+        b = a
+    elif how == "relabel":
+        b = relabel(a, rnd)
+    elif how == "iso_variant":
+        b = iso_variant(a, rnd)
+    elif how == "near":
+        b = near_miss(a, rnd)[0]
+    elif how == "derived":
+        b = derived(a, rnd)[0]
+    else:  # an independent draw of the same family: often isomorphic for the rare shapes
+        b = degenerate(rnd)[0] if c < 0.45 else (sym_ring(rnd) if c < 0.6 else relabel(rnd.choice(corpus), rnd))
+    kinds[f"pair:{k}/{how}"] = kinds.get(f"pair:{k}/{how}", 0) + 1
+    return {"kind": "pair", "a": a, "b": b, "how": how}
+
+
+def predicate_answers(A, B):
+    """Every way the library answers "are A and B isomorphic on element, charge, bond order?" -> {name: verdict}"""
+    from synkit.Graph.Matcher.graph_morphism import graph_isomorphism, find_graph_isomorphism
+    from networkx.algorithms.isomorphism import generic_node_match, generic_edge_match
+    from operator import eq
+
+    g = inst("gc", {"shared": True})   # the matchers of a long-lived GraphCluster, as clustering passes them
+    nm2 = generic_node_match(["charge", "element"], [0, "*"], [eq, eq])
+    em2 = generic_edge_match("order", 1, eq)
+    out = {}
+    out["graph_isomorphism(A, B, nodeMatch, edgeMatch)"] = graph_isomorphism(A, B, g.nodeMatch, g.edgeMatch)
+    out["graph_isomorphism(A, B, nodeMatch, edgeMatch), asked again"] = graph_isomorphism(A, B, g.nodeMatch, g.edgeMatch)
+    out["graph_isomorphism(A, B, use_defaults=True)"] = graph_isomorphism(A, B, use_defaults=True)
+    out["graph_isomorphism(A, B, matchers with permuted keys)"] = graph_isomorphism(A, B, nm2, em2)
+    for fast in (True, False):
+        m = find_graph_isomorphism(A, B, node_match=g.nodeMatch, edge_match=g.edgeMatch, use_defaults=False,
+                                   fast_invariant_check=fast)
+        out[f"find_graph_isomorphism(A, B, nodeMatch, edgeMatch, use_defaults=False, fast_invariant_check={fast}) is not None"] = \
+            m is not None
+    return {k: (v if isinstance(v, bool) else repr(v)) for k, v in out.items()}
+
+
+def evaluate_pairs(ctx, pairs, stream):
+    """`graph_isomorphism` / `find_graph_isomorphism` on (A, B) and (B, A) against the Lean verdict `match.iso`.
+    A pair on which they differ is then CLUSTERED (two-item and four-item lists, all paths): if the classes do
+    not follow the verdict that is the violation reported, with the list as the failing input."""
+    if not pairs:
+        return
+    lean = ctx.lean()
+    built = []
+    for pr in pairs:
+        A, ea = entry_graph(pr["a"])
+        B, eb = (A, ea) if pr["b"] is pr["a"] else entry_graph(pr["b"])
+        built.append((A, ea, B, eb))
+    reqs = []
+    for _, ea, _, eb in built:
+        na, nb = norm_json(ea), norm_json(eb)
+        reqs.append({"cmd": "match.iso", "host": na, "pattern": nb, **SEL})
+        reqs.append({"cmd": "match.iso", "host": nb, "pattern": na, **SEL})
+    verdicts = lean.ok(reqs, shards=8)
+    bad = []
+    for k, (pr, (A, ea, B, eb)) in enumerate(zip(pairs, built)):
+        vab, vba = verdicts[2 * k], verdicts[2 * k + 1]
+        ctx.count(f"stream:{stream}")
+        ctx.count("pair_verdict:" + str(vab).lower())
+        ctx.case(["pair", plain(ea), plain(eb)], plain(ea) != plain(eb))
+        wrong = {}
+        for (X, Y, v, tag) in ((A, B, vab, "A,B"), (B, A, vba, "B,A")):
+            try:
+                ans = predicate_answers(X, Y)
+            except Exception as e:  # noqa: BLE001 - an exception on a legal pair is a wrong answer too
+                ans = {"graph_isomorphism / find_graph_isomorphism": f"raised {type(e).__name__}: {e}"}
+            for name, got in ans.items():
+                if got is not v:
+                    wrong[f"[{tag}] {name}"] = {"library": got, "lean_match_iso": v}
+        if wrong:
+            bad.append(({"kind": "pair", "a": ea, "b": eb, "how": pr.get("how")}, wrong))
+    for pr, wrong in bad[:4]:
+        before = len(ctx.violations)
+        cl = []
+        for items in ([0, 1], [1, 0, 0, 1]):
+            n = len(items)
+            cl.append({"pool": [pr["a"], pr["b"]], "items": items, "attr": "none", "gc_only": False,
+                       "perm": list(reversed(range(n))), "arrival": list(range(n))[1:] + [0], "templates": [],
+                       "batch_sizes": [None, 1], "empty_list_templates": False})
+        evaluate(ctx, cl, stream + "->clustered")
+        if not any(not v["no_input"] for v in ctx.violations[before:]):
+            ctx.violation("correspondence broke: the isomorphism predicate behind clustering answers differently from the Lean "
+                          "verdict on this pair, but clustering the pair gives the right classes", pr, {"stream": stream, "answers": wrong},
+                          no_input=True)
+        if len(ctx.violations) >= 6:
+            return
+
+
 def run(ctx):
     ctx.trusted = [
         "Lean 4.33 kernel; axioms of the property theorems as listed in obligation_list",
@@ -755,12 +1142,17 @@ def run(ctx):
         "Driver/Cluster.lean JSON codec, harness/props/c13.py adapters and canonicalisation (partitions; labels only up to renaming "
         "of fresh classes); attribute values are computed by the harness, the adapter mirrors GraphCluster's `sorted(value)` on "
         "list attributes",
+        "rsmi_to_its / get_rc are used only to PRODUCE some input objects (empty and edgeless centres as the pipeline makes them); the "
+        "object they return is encoded as it is and judged by the Lean engine, nothing about it is assumed",
         "BatchCluster.fit's single-batch path picks one representative per class with the global `random`; the choice is not "
         "compared (any member isomorphic to the model's representative is accepted)",
     ]
     ctx.assumptions = [
-        "every node carries element and charge and every edge carries order (as all corpus centres do), so the defaults of "
-        "generic_node_match/generic_edge_match ('*', 0, 1) never apply",
+        "corpus / tiny / non-invariant streams: every node carries element and charge and every edge carries order (as all corpus "
+        "centres do); rare-shapes and predicate streams: a compared key may be ABSENT, it is then read with the matcher default "
+        "('*', 0 on nodes, 1 on edges) -- the harness writes these defaults out (norm_json = SynKit.Cluster.norm, theorems "
+        "nodeOk_norm_iff / edgeOk_norm_iff / clIso_iff) before it asks the Lean engine; no key is present with value None",
+        "graphs are plain nx.Graph objects (also empty ones, also those returned by get_rc); node ids non-negative ints",
         "pre-grouping attribute: None, a string, or a list of strings (the types GraphCluster accepts); template class numbers are ints; "
         "pre-existing templates are pairwise non-isomorphic with distinct class numbers",
         "backend 'nx' (the MØD backend is not installed)",
@@ -772,9 +1164,24 @@ def run(ctx):
         "relabelled copies (ids permuted, node/edge order shuffled), near misses (one bond order / charge / element changed), "
         "attribute kind none/elems/elems_unsorted/hash/size, random list order, random arrival order, pre-existing templates with "
         "non-contiguous (also negative) class numbers, batch sizes from {None,1,2,3,7,n,n+5}; a separately counted stream with a "
-        "NON-invariant attribute (only impl = model)."
+        "NON-invariant attribute (only impl = model). "
+        "Second tiny-exhaustive part: ALL lists of length <=3 (quick) / <=4 (thorough) over 7 degenerate centres (empty nx.Graph(), "
+        "empty get_rc(rsmi_to_its(no-change reaction)), single C with and without the charge key, single C-, single O, two "
+        "unbonded C) with attribute none/elems/hash/size, templates, fresh or long-lived instance, key list permuted. "
+        "rare-shapes-mixed stream: lists of 3-30 in which fresh draws are 45% degenerate (empty plain / empty from get_rc / single "
+        "atom / 2-4 unbonded atoms / get_rc(disconnected=True) of charge-only reactions / one bond), 15% symmetric rings with two "
+        "marks, else corpus; copies are relabelled or differ in spectator attributes (node 'order', edge 'element'/'charge', "
+        "atom_map) or omit a zero charge; near misses are one order/charge/element changed or a derived graph (node dropped, bond "
+        "dropped, atom isolated, spectator atom added, compared key dropped); per case: constructor options default / keys "
+        "permuted / all explicit, fresh or ONE long-lived GraphCluster+BatchCluster per option set, stale 'class' entries in the "
+        "data, the same question asked twice, matchers passed explicitly to lib_check; the model side is computed per case "
+        "only. predicate-direct stream: ordered pairs (same object, relabelled, spectator variant, near miss, derived, independent "
+        "draw) given to graph_isomorphism (instance matchers, twice; use_defaults=True; permuted-key matchers) and "
+        "find_graph_isomorphism (fast check on/off) against Lean match.iso; a differing pair is then clustered as a 2- and a 4-item "
+        "list and reported through the clustering gates."
     )
-    ctx.nontrivial_rule = "distinct as (pool, list, attribute, orders, templates, batch sizes); >= 2 classes and >= 1 class with >= 2 members in the model's one-shot clustering"
+    ctx.nontrivial_rule = ("distinct as (pool, list, attribute, orders, templates, batch sizes); >= 2 classes and >= 1 class with >= 2 members "
+                           "in the model's one-shot clustering; predicate pairs: distinct as (A, B) and A, B not the same encoding")
     build_and_audit(ctx, ["SynKitProofs.Props.C13"], "SynKitProofs/Audit/C13.lean", THEOREMS)
 
     corpus = [g for g in load_corpus() if all_present(g)]
@@ -791,6 +1198,12 @@ def run(ctx):
         evaluate(ctx, tiny, "tiny-exhaustive")
     ctx.extra["exhaustive"] = not ctx.violations
     ctx.extra["exhaustive_part"] = f"all {len(tiny)} lists of length <= {4 if ctx.quick else 5} over the 5-graph alphabet"
+    tiny2 = tiny_degenerate_cases(3 if ctx.quick else 4)
+    if len(ctx.violations) < 6:
+        evaluate(ctx, tiny2, "tiny-exhaustive-degenerate")
+    ctx.extra["exhaustive"] = not ctx.violations
+    ctx.extra["exhaustive_part"] += (f"; all {len(tiny2)} lists of length <= {3 if ctx.quick else 4} over 7 empty / single-atom / "
+                                     "edgeless centres")
 
     n_main = 320 if ctx.quick else 4000
     n_gc = 80 if ctx.quick else 800
@@ -813,13 +1226,43 @@ def run(ctx):
         evaluate(ctx, cases, "corpus")
     if len(ctx.violations) < 6:
         evaluate(ctx, non, "non-invariant-attribute")
+    # rare-but-legal shapes, derived objects, option spellings, long-lived instances, repeated questions
+    kinds = {}
+    n_mixed = 220 if ctx.quick else 3000
+    n_mixed_gc = 40 if ctx.quick else 500
+    mixed = []
+    for k in range(n_mixed):
+        size = rnd.randint(3, 12) if k % 3 else rnd.randint(8, 30)
+        attr = rnd.choice(["none", "none", "elems", "hash", "size"])
+        mixed.append(make_case(rnd, corpus, size, attr, with_templates=rnd.random() < 0.5, mixed=True, kinds=kinds))
+    for k in range(n_mixed_gc):
+        mixed.append(make_case(rnd, corpus, rnd.randint(3, 24), "elems_unsorted", False, gc_only=True, mixed=True, kinds=kinds))
+    for c in mixed:
+        for key in ("shared", "stale_class", "repeat", "explicit_match"):
+            if c.get(key):
+                ctx.count("mixed:" + key)
+        ctx.count("mixed:opts=" + c["opts"])
+        ctx.count("mixed:lists_with_>=2_empty_centres", int(sum(1 for p in c["items"] if not c["pool"][p]["nodes"]) >= 2))
+    if len(ctx.violations) < 6:
+        fix_templates(mixed, ctx.lean())
+        evaluate(ctx, mixed, "rare-shapes-mixed")
+    pairs = [make_pair(rnd, corpus, kinds) for _ in range(400 if ctx.quick else 5000)]
+    if len(ctx.violations) < 6:
+        evaluate_pairs(ctx, pairs, "predicate-direct")
+    for k, v in sorted(kinds.items()):
+        ctx.count(k, v)
     ctx.violations.sort(key=lambda v: v["no_input"])  # failing inputs first
     ctx.obligation("correspondence: GraphCluster.iterative_cluster/fit partitions impl == model; spec 'same class <=> iso verdict' and "
                    "order independence hold on the implementation's output", not ctx.violations)
     ctx.obligation("correspondence: BatchCluster.lib_check/cluster/fit impl == model up to renaming of fresh classes; incremental == "
                    "one-shot == batched; template classes respected", not ctx.violations)
+    ctx.obligation("correspondence: graph_isomorphism / find_graph_isomorphism (the predicate behind clustering) == Lean match.iso on "
+                   "ordered pairs, including empty, single-atom and edgeless centres", not ctx.violations)
 
 
 def replay(ctx, case):
     c = case.get("case", case)
-    evaluate(ctx, [dict(c)], "replay", shrink=False)
+    if c.get("kind") == "pair":
+        evaluate_pairs(ctx, [dict(c)], "replay")
+    else:
+        evaluate(ctx, [dict(c)], "replay", shrink=False)
